@@ -38,6 +38,10 @@ def clause_code(tok, S):
         return '.TIMES(%s)' % body.replace('_', ',')
     raise ValueError(tok)
 
+def objx(sh, S):
+    """the mock object expression of a site: the movable mock type, or the non-movable one (mock id 3)"""
+    return '*nmock' if sh.get('nm') else '*mocks[cfg[%d].mock]' % S
+
 def call_text(sh, S):
     fn, pm = sh['fn'], sh['pm']
     if pm == 'wild':
@@ -67,39 +71,39 @@ def main(outdir):
         fname = 'sites_%d.cpp' % n
         lines = ['#include "rt.hpp"',
                  'using namespace drv; using trompeloeil::_;',
-                 'namespace drv { bool make_expectation_%d(int slot, int shape) { SlotCfg& c = cfg[slot]; switch (slot * 100 + shape) {' % n]
+                 'namespace drv { bool make_expectation_%d(int slot, int shape) { SlotCfg& c = cfg[slot]; switch (slot * 1000 + shape) {' % n]
         for (S, sh) in tu:
             ct = call_text(sh, S)
             mods = ''.join(clause_code(t, S) for t in sh['cl'])
             if sh['macro'].endswith('_V'):
                 macro = {'REQ_V': 'NAMED_REQUIRE_CALL_V', 'ALLOW_V': 'NAMED_ALLOW_CALL_V', 'FORBID_V': 'NAMED_FORBID_CALL_V'}[sh['macro']]
-                code = 'case %d: exps[%d] = %s(*mocks[cfg[%d].mock], %s%s); return true;' % (
-                    S * 100 + sh['id'], S, macro, S, ct, (', ' + mods) if mods else '')
+                code = 'case %d: exps[%d] = %s(%s, %s%s); return true;' % (
+                    S * 1000 + sh['id'], S, macro, objx(sh, S), ct, (', ' + mods) if mods else '')
             else:
                 macro = {'REQ': 'NAMED_REQUIRE_CALL', 'ALLOW': 'NAMED_ALLOW_CALL', 'FORBID': 'NAMED_FORBID_CALL'}[sh['macro']]
-                code = 'case %d: exps[%d] = %s(*mocks[cfg[%d].mock], %s)%s; return true;' % (
-                    S * 100 + sh['id'], S, macro, S, ct, mods)
+                code = 'case %d: exps[%d] = %s(%s, %s)%s; return true;' % (
+                    S * 1000 + sh['id'], S, macro, objx(sh, S), ct, mods)
             lines.append(code)
-            sites['%s:%d' % (fname, len(lines))] = dict(kind='exp', slot=S, shape=sh['id'], name='*mocks[cfg[%d].mock].' % S + ct)
+            sites['%s:%d' % (fname, len(lines))] = dict(kind='exp', slot=S, shape=sh['id'], name=objx(sh, S) + '.' + ct)
         lines.append('default: return false; } } }')
         with open(os.path.join(outdir, fname), 'w') as f:
             f.write('\n'.join(lines) + '\n')
     # scoped forms: the expectation is a local variable; `created` logs the creation, `body` runs the ops of the scope
     fname = 'sites_scoped.cpp'
     lines = ['#include "rt.hpp"', 'using namespace drv; using trompeloeil::_;',
-             'namespace drv { bool make_scoped(int slot, int shape, std::function<void()> const& created, std::function<void()> const& body) { SlotCfg& c = cfg[slot]; (void)c; switch (slot * 100 + shape) {']
+             'namespace drv { bool make_scoped(int slot, int shape, std::function<void()> const& created, std::function<void()> const& body) { SlotCfg& c = cfg[slot]; (void)c; switch (slot * 1000 + shape) {']
     for (S, sh) in spairs:
         ct = call_text(sh, S)
         mods = ''.join(clause_code(t, S) for t in sh['cl'])
         m = sh['macro']
         if m.endswith('_V'):
             macro = {'SREQ_V': 'REQUIRE_CALL_V', 'SALLOW_V': 'ALLOW_CALL_V', 'SFORBID_V': 'FORBID_CALL_V'}[m]
-            stmt = '%s(*mocks[cfg[%d].mock], %s%s);' % (macro, S, ct, (', ' + mods) if mods else '')
+            stmt = '%s(%s, %s%s);' % (macro, objx(sh, S), ct, (', ' + mods) if mods else '')
         else:
             macro = {'SREQ': 'REQUIRE_CALL', 'SALLOW': 'ALLOW_CALL', 'SFORBID': 'FORBID_CALL'}[m]
-            stmt = '%s(*mocks[cfg[%d].mock], %s)%s;' % (macro, S, ct, mods)
-        lines.append('case %d: { %s created(); body(); } return true;' % (S * 100 + sh['id'], stmt))
-        sites['%s:%d' % (fname, len(lines))] = dict(kind='exp', slot=S, shape=sh['id'], name='*mocks[cfg[%d].mock].' % S + ct)
+            stmt = '%s(%s, %s)%s;' % (macro, objx(sh, S), ct, mods)
+        lines.append('case %d: { %s created(); body(); } return true;' % (S * 1000 + sh['id'], stmt))
+        sites['%s:%d' % (fname, len(lines))] = dict(kind='exp', slot=S, shape=sh['id'], name=objx(sh, S) + '.' + ct)
     lines.append('default: return false; } }')
     lines.append('bool make_scoped_monitor(int k, int o, int nq, int q1, int q2, std::function<void()> const& created, std::function<void()> const& body) { (void)q1; (void)q2; switch (k * 10 + nq) {')
     for k in range(1, NMON + 1):
